@@ -115,6 +115,10 @@ impl Prop for C11 {
             let n = if suite == "ed448" { 20u16 } else { 60u16 };
             out.push(serde_json::to_value(Case::ManyHelpers { suite: suite.to_string(), n, t: 2, seed: format!("s{seed}") }).unwrap());
             out.push(serde_json::to_value(Case::ManyHelpers { suite: suite.to_string(), n: n / 2, t: n / 2 - 1, seed: format!("s{seed}") }).unwrap());
+            if suite != "ed448" {
+                // threshold above 255 (two-byte varint in the transported public key package)
+                out.push(serde_json::to_value(Case::ManyHelpers { suite: suite.to_string(), n: 260, t: 256, seed: format!("s{seed}") }).unwrap());
+            }
         }
         for q in [7u64, 11] {
             for (n, t) in [(3u16, 2u16), (4, 2), (4, 3), (5, 3)] {
@@ -222,8 +226,26 @@ fn repair_and_check<C: Suite>(
         let recv: Vec<Delta<C>> = helpers.iter().map(|from| deltas[from][h]).collect();
         sigmas.push(C::w_repair2(&recv));
     }
-    // part 3
-    let kp = match C::w_repair3(&sigmas, target, &grp.pkp) {
+    // part 3: the public key package reaches the repairing participant over the wire
+    // (toy groups: a share equal to 0 has the identity as verifying share, which has no encoding; those
+    // packages are handed over in memory)
+    let wire_pkp = match grp.pkp.serialize().ok().and_then(|b| fc::keys::PublicKeyPackage::<C>::deserialize(&b).ok()) {
+        Some(p) => p,
+        None if C::TINY => grp.pkp.clone(),
+        None => {
+            o.fail(format!("{tag}/public-key-package-transport"), format!("{ctx}: the public key package does not survive its binary encoding"));
+            return;
+        }
+    };
+    let json_pkp = serde_json::to_string(&grp.pkp).ok().and_then(|j| serde_json::from_str::<fc::keys::PublicKeyPackage<C>>(&j).ok());
+    if let Some(jp) = &json_pkp {
+        if let Ok(kj) = C::w_repair3(&sigmas, target, jp) {
+            if *kj.min_signers() != grp.t {
+                o.fail(format!("{tag}/repaired-package-inconsistent"), format!("{ctx}: threshold {} after transporting the public key package as JSON", kj.min_signers()));
+            }
+        }
+    }
+    let kp = match C::w_repair3(&sigmas, target, &wire_pkp) {
         Ok(k) => k,
         Err(e) => {
             o.fail(format!("{tag}/part3-failed"), format!("{ctx}: {e:?}"));
@@ -308,7 +330,21 @@ fn run_real<C: Suite>(c: &Case) -> Outcome {
             }
         }
         Case::ManyHelpers { n, t, seed, .. } => {
-            let grp = match make_group::<C>(KeySrc::Dealer, *n, *t, IdKind::U16x, seed) {
+            let made = if *t > 100 {
+                // a few hundred participants with a threshold above 255: key packages are assembled from the
+                // dealer output without the O(n*t) commitment check (C06 covers that)
+                let mut rng = ScriptedRng::ctr(format!("c11big:{seed}"));
+                C::w_generate_with_dealer(*n, *t, frost_core::keys::IdentifierList::Default, &mut rng).map_err(e2s("dealer")).map(|(shares, pkp)| {
+                    let kps: BTreeMap<Id<C>, fc::keys::KeyPackage<C>> = shares
+                        .iter()
+                        .map(|(id, s)| (*id, fc::keys::KeyPackage::<C>::new(*id, *s.signing_share(), pkp.verifying_shares()[id], *pkp.verifying_key(), *t)))
+                        .collect();
+                    Grp { n: *n, t: *t, ids: kps.keys().copied().collect(), kps, pkp, shares: Some(shares), key: None, dkg_r1: None }
+                })
+            } else {
+                make_group::<C>(KeySrc::Dealer, *n, *t, IdKind::U16x, seed)
+            };
+            let grp = match made {
                 Ok(g) => g,
                 Err(e) => {
                     o.eval(false);
